@@ -212,6 +212,10 @@ var defineRe = regexp.MustCompile(`^    define ([^:]+): `)
 var condRe = regexp.MustCompile(`^condition ([^(]+)\(([^)]*)\) \{$`)
 
 func checkCanonical(run *core.Run, m *openfgav1.AuthorizationModel, r *rand.Rand, repeats int) {
+	run.Guard(&core.Case{Kind: "model", Model: modelJSON(m)}, func() { checkCanonical1(run, m, r, repeats) })
+}
+
+func checkCanonical1(run *core.Run, m *openfgav1.AuthorizationModel, r *rand.Rand, repeats int) {
 	c := &core.Case{Kind: "model", Model: modelJSON(m)}
 	clone := func() *openfgav1.AuthorizationModel { return proto.Clone(m).(*openfgav1.AuthorizationModel) }
 	plain, err := transformer.TransformJSONProtoToDSL(clone())
